@@ -119,10 +119,13 @@ var tvfs = map[string]logical.TableValuedFunctionDescription{
 }
 
 // Env builds the physical environment over the given in-memory tables (database name "mem").
+// The function map (with its regexp caches) is built once per process, as cmd/root.go does.
+var functionMap = functions.FunctionMap()
+
 func Env(tables map[string]*Table) physical.Environment {
 	return physical.Environment{
 		Aggregates: aggregates.Aggregates,
-		Functions:  functions.FunctionMap(),
+		Functions:  functionMap,
 		Datasources: &physical.DatasourceRepository{
 			Databases: map[string]func() (physical.Database, error){
 				"mem": func() (physical.Database, error) { return &memDB{tables: tables}, nil },
